@@ -14,6 +14,16 @@ Check (C10_history_independent : forall msgs1 msgs2 w1 w2 i j msg r1 r2 mk ty,
   rd_bytes_at msg mk r1 = rd_bytes_at msg mk r2 /\
   rd_data_at msg ty mk r1 = rd_data_at msg ty mk r2 /\
   rd_name_ref_at mk r1 = rd_name_ref_at mk r2).
-Print Assumptions C10_at_pure.
-Print Assumptions C10_history_independent.
-Print Assumptions C10_witness.
+Check (C10_witness : let msg := [x00;x01;x81;x80;x00;x00;x00;x02;x00;x00;x00;x00;
+              x00;x00;x01;x00;x01;x00;x00;x00;x3c;x00;x03;x01;x02;x03;
+              x00;x00;x01;x00;x01;x00;x00;x00;x3c;x00;x04;x09;x08;x07;x06] in
+  let w := world_init [msg] in
+  let w1 := fst (step w 0 CHeader) in
+  let w2 := fst (step w1 0 CMarker) in
+  let w3 := fst (step w2 0 (CData 1 0)) in         
+  let w4 := fst (step (fst (step (fst (step (fst (step w 0 CHeader)) 0 CMarker)) 0 (CSkipData 0))) 0 CMarker) in
+  match getN (w_markers w4) 1, getN (w_readers w3) 0 with
+  | Some mk2, Some (Some r) => r_done r = true /\ rd_data_at msg 1 mk2 r = Ok (ORData (RD_A 151521030))
+  | _, _ => False
+  end).
+Print Assumptions C10_at_pure. Print Assumptions C10_history_independent. Print Assumptions C10_witness.
